@@ -264,7 +264,7 @@ fn predicate_rejects(cfg: &Cfg, method: usize, anchored: bool, has_empty: bool) 
     a || b || c || d
 }
 
-fn invoke(ac: &AhoCorasick, method: usize, hay: &[u8], hay_str: &str, anchored: bool, npats: usize, span: (usize, usize), prelude: Option<bool>) -> Outcome {
+fn invoke(ac: &AhoCorasick, method: usize, hay: &[u8], hay_str: &str, anchored: bool, npats: usize, span: (usize, usize), prelude: Option<bool>, other: Option<&AhoCorasick>) -> Outcome {
     let inp = || Input::new(hay).span(aho_corasick::Span { start: span.0, end: span.1 }).anchored(anch(anchored));
     // An OverlappingState that already served an accepted request with the
     // anchoring `prelude` (on the empty haystack) before the judged call.
@@ -272,6 +272,11 @@ fn invoke(ac: &AhoCorasick, method: usize, hay: &[u8], hay_str: &str, anchored: 
         let mut st = OverlappingState::start();
         if let Some(a) = prelude {
             let _ = ac.try_find_overlapping(Input::new("").anchored(anch(a)), &mut st);
+        }
+        // ... or that was advanced by a DIFFERENT searcher (standard kind,
+        // start kind Both, same patterns) over the same haystack
+        if let Some(o) = other {
+            let _ = o.try_find_overlapping(Input::new(hay), &mut st);
         }
         st
     };
@@ -441,7 +446,13 @@ fn c13_check(case: &Case, ctx: &mut Ctx) -> Result<(), String> {
         Some(2) if !predicate_rejects(cfg, 11, true, has_empty) => Some(true),
         _ => None,
     };
-    let got = invoke(ac, method, hay, &hay_str, case.anchored, case.patterns.len(), span, prelude);
+    // NOT done: handing over an OverlappingState that was advanced by a
+    // DIFFERENT searcher. State identifiers are only valid for the automaton
+    // that produced them (documented), so such a request is outside the
+    // contract - it panics with an index error on the unchanged tree, which a
+    // first version of this check mis-reported as a violation.
+    let other_searcher: Option<AhoCorasick> = None;
+    let got = invoke(ac, method, hay, &hay_str, case.anchored, case.patterns.len(), span, prelude, other_searcher.as_ref());
     let fallible = method >= 10;
     let want = if !expect_reject {
         Outcome::Accepted
@@ -464,6 +475,9 @@ fn c13_check(case: &Case, ctx: &mut Ctx) -> Result<(), String> {
     }
     if prelude.is_some() && matches!(method, 2 | 11) {
         ctx.class("overlapping-state-reused");
+    }
+    if other_searcher.is_some() {
+        ctx.class("overlapping-state-from-another-searcher");
     }
     ctx.class(if expect_reject { "rejected" } else { "accepted" });
     ctx.class(sem::engine_class(cfg.engine));
@@ -530,6 +544,28 @@ fn c13_extra(tier: Tier, seed: u64, ctx: &mut Ctx) -> Result<bool, Violation> {
                     for method in 0..METHODS.len() {
                         for shape in 0..3usize {
                             cell += 1;
+                            // stream methods, no empty pattern: one extra input whose
+                            // only pattern is exactly 65536 bytes long (lengths are not
+                            // allowed to influence the decision)
+                            if shape == 1 && matches!(method, 9 | 18 | 19 | 20) && !anchored && (sk == Sk::Unanchored || mk != Mk::Standard) {
+                                let case = Case {
+                                    prop: "C13".into(),
+                                    sub: "cell:long-pattern".into(),
+                                    cfg: Cfg { engine, mk, sk, prefilter: true, dense_depth: 2, byte_classes: true, casei: false },
+                                    // no long borders: failure chains stay short and
+                                    // every builder is linear on it
+                                    patterns: vec![(0..65536u32).map(|i| ((i.wrapping_mul(2654435761) >> 13) % 251) as u8).collect()],
+                                    haystack: b"xxaab".to_vec(),
+                                    span: (0, 5),
+                                    anchored,
+                                    params: vec![method as i64, 0],
+                                    ..Case::default()
+                                };
+                                if let Err(reason) = runner::run_check(c13_check, &case, ctx) {
+                                    return Err(Violation { case, reason });
+                                }
+                                ctx.enumerated += 1;
+                            }
                             for j in 0..per_cell {
                                 let pool = &pools[shape];
                                 let src = &pool[(cell * 7 + j * 13) % pool.len()];
@@ -577,7 +613,7 @@ fn c13_extra(tier: Tier, seed: u64, ctx: &mut Ctx) -> Result<bool, Violation> {
 pub const C13: PropDef = PropDef {
     id: "C13",
     rule: "enumerated completely on every run: match kind (3) x start kind (3) x requested anchoring (2) x automaton kind (auto, noncontiguous, contiguous, DFA) x the 21 public search methods of AhoCorasick (10 infallible, 11 try_) x pattern-list shape (no patterns / no empty pattern / with empty pattern) = 4536 cells, \
-each with generated pattern lists, haystacks and spans (full, restricted, the exhausted span start=end+1) of that shape, and for the stepwise overlapping methods with a fresh OverlappingState or one that already served an accepted request with either anchoring (the outcome must not depend on any of them); plus a random tier over the same space with more varied inputs and builder options. \
+each with generated pattern lists, haystacks and spans (full, restricted, the exhausted span start=end+1) of that shape, and for the stepwise overlapping methods with a fresh OverlappingState or one that already served an accepted request of the same searcher with either anchoring; stream methods additionally get a single 65536-byte pattern (the outcome must not depend on any of them); plus a random tier over the same space with more varied inputs and builder options. \
 Oracle: rejected iff (a) anchoring not covered by the start kind (replace/stream methods count as unanchored), (b) overlapping or stream search on a non-standard searcher, (c) anchored overlapping iterator, (d) stream search with an empty pattern; \
 fallible => Err value, infallible => panic, accepted => Ok and draining a constructed iterator (or repeating try_find_overlapping after a successful first call) never fails. Outcomes are classified with catch_unwind. \
 Every evaluation is non-trivial (each is a distinct (cell, input) pair); exhaustive over cells, sampled over inputs. Distinct = distinct case fingerprint.",
@@ -727,7 +763,7 @@ fn c19_check(case: &Case, ctx: &mut Ctx) -> Result<(), String> {
         let occ = Occ::new(&case.patterns, hay, cfg.casei);
         let n = occ.overlapping(s0, e0, case.anchored).len();
         let _g = BudgetGuard::arm(budget);
-        let r = guard(|| s.overlapping_steps(input(hay, case.span, case.anchored, false), 0, n + 8));
+        let r = guard(|| s.overlapping_steps_limited(input(hay, case.span, case.anchored, false), n + 8));
         let drained = r.map_err(|p| budget_msg(p, "overlapping drain"))?.map_err(|e| format!("overlapping drain: Err({})", e))?;
         if drained.len() > n {
             return Err(format!(
@@ -862,7 +898,7 @@ fn low_pattern_lens<A: Automaton>(a: &A) -> Vec<usize> {
 }
 
 fn c20_check(case: &Case, ctx: &mut Ctx) -> Result<(), String> {
-    if case.sub.starts_with("scenario:dfa-state-id-overflow") {
+    if case.sub.starts_with("scenario:") {
         // replay of the scenario stand-in
         let mut c = Ctx::default();
         return c20_extra(Tier::Quick, 0, &mut c).map(|_| ()).map_err(|v| v.reason);
@@ -1108,6 +1144,38 @@ fn c20_extra(_tier: Tier, _seed: u64, ctx: &mut Ctx) -> Result<bool, Violation> 
     ctx.end(&stand_in);
     ctx.enumerated += 1;
     out.map_err(|reason| Violation { case: stand_in.clone(), reason })?;
+
+    // Second scenario: a legal collection whose contiguous encoding is large
+    // (300 x 230 random bytes, every state dense, byte classes off: about
+    // 18 million 32-bit words). Explicitly requested kinds must build.
+    let mut sd = 0x51_7c_c1_b7_27_22_0a_95u64;
+    let patterns: Vec<Vec<u8>> = (0..300).map(|_| lcg_bytes(&mut sd, 230, &full)).collect();
+    for engine in [Engine::TopC, Engine::LowC, Engine::TopNc] {
+        let cfg = Cfg { engine, mk: Mk::LeftmostFirst, sk: Sk::Unanchored, prefilter: true, dense_depth: -1, byte_classes: false, casei: false };
+        let stand_in = Case { prop: "C20".into(), sub: "scenario:large-dense-encoding (300 x 230 random bytes)".into(), cfg: cfg.clone(), ..Case::default() };
+        ctx.begin();
+        let r = Searcher::build(&cfg, &patterns);
+        ctx.nontrivial();
+        ctx.end(&stand_in);
+        ctx.enumerated += 1;
+        match r {
+            Err(e) => return Err(Violation { case: stand_in, reason: format!("a legal collection (300 patterns x 230 bytes) failed to build with dense_depth(MAX), byte_classes(false): {}", e) }),
+            Ok(s) => {
+                if s.patterns_len() != 300 || s.max_pattern_len() != 230 {
+                    return Err(Violation { case: stand_in, reason: "metadata of the large dense collection is wrong".into() });
+                }
+                // pattern 7 occurs in a haystack: found with the right id
+                let mut h = b"....".to_vec();
+                h.extend_from_slice(&patterns[7]);
+                let got = guard(|| s.try_find(input(&h, (0, h.len()), false, false)));
+                let want = Some(M { pat: 7, start: 4, end: 234 });
+                if !matches!(&got, Ok(Ok(g)) if *g == want) {
+                    return Err(Violation { case: stand_in, reason: format!("large dense collection: expected {:?}, got {:?}", want, got.map(|r| r.map_err(|e| e.to_string()))) });
+                }
+                ctx.class("scenario:large-dense-encoding-built");
+            }
+        }
+    }
     Ok(false)
 }
 
